@@ -19,7 +19,7 @@ COVER = 'kani::cover!(true, "vk_reached");'
 
 def wrap(module, body, uses=""):
     return (
-        "#[cfg(kani)]\n#[allow(unused, clippy::all)]\npub(crate) mod %s {\n    use super::*;\n%s\n%s\n    // vk-playback-slot:%s\n}\n"
+        "#[cfg(kani)]\n#[allow(unused, static_mut_refs, clippy::all)]\npub(crate) mod %s {\n    use super::*;\n%s\n%s\n    // vk-playback-slot:%s\n}\n"
         % (module, uses, body, module)
     )
 
